@@ -98,7 +98,7 @@ def oracle(case, init_snap, obs):
                 for wi in range(len(snap[tgt]["workers"])):
                     tainted.add((tgt, wi))
         # removal of a resident must succeed
-        if op["op"] == "w_remove" and o["out"] != "ok" and op["w"] < len(prev[tgt]["workers"]):
+        if api_only and op["op"] == "w_remove" and o["out"] != "ok" and op["w"] < len(prev[tgt]["workers"]):
             before = prev[tgt]["workers"][op["w"]]
             pl = dict((t, s) for t, s in before["placed"])
             if op["t"] in pl and (tgt, op["w"]) not in tainted:
